@@ -45,6 +45,7 @@ type World struct {
 	ownW      map[*FuncInfo]map[string]map[int]bool
 	retSum    map[*FuncInfo]ocls
 	retObj    map[*FuncInfo]psrc
+	pendingPreserves []*FuncInfo
 	mutParams map[*FuncInfo]map[int]bool // parameters (receiver excluded) whose map/slice content the function writes in place
 }
 
@@ -175,6 +176,7 @@ func loadWorld(repo string, verifContracts string) (*World, error) {
 			}
 			fi.Contract = c
 			w.Contracts = append(w.Contracts, c)
+			w.pendingPreserves = append(w.pendingPreserves, fi)
 		}
 	}
 	return w, nil
